@@ -121,6 +121,37 @@ def lib():
       self.name = name
       self.payload = payload
 
+  t = pg.typing
+  fields = [('x', t.Int(default=0)),
+            ('y', t.Dict([('z', t.Int(default=0)), ('u', t.Any(default=None))])),
+            ('w', t.Any(default=None)),
+            ('l', t.List(t.Any(), default=[]))]
+
+  @pg.members(fields)
+  class Frozen(pg.Object):          # sealed unless the caller asks otherwise
+    allow_symbolic_mutation = False
+
+  @pg.members(fields)
+  class FrozenAssignable(pg.Object):
+    allow_symbolic_mutation = False
+    allow_symbolic_assignment = True
+
+  @pg.members(fields)
+  class Assignable(pg.Object):
+    allow_symbolic_assignment = True
+
+  @pg.members(fields)
+  class Regular(pg.Object):
+    pass
+
+  @pg.members([('name', t.Str()),
+               ('opts', t.Dict([('lr', t.Float()), ('steps', t.Int(default=10))])),
+               ('layers', t.List(t.Any(), default=[]))])
+  class Model(pg.Object):
+    allow_symbolic_assignment = True
+
+  _LIB.update(flagcls=[Frozen, FrozenAssignable, Assignable, Regular], Model=Model)
+
   user = [DcSelf, DcNewDict, DcRebuild, CpSelf, CpNewDict, Plain]
   wrapped = {}
   for c in user:
@@ -140,8 +171,25 @@ TREES = ['self', 'dict', 'list', 'object', 'dict2']     # dict2: two levels
 
 
 def gen_case(r):
-  fam = ['functor', 'functor', 'dna', 'dna', 'hyper', 'wrapped', 'wrapped'][r.below(7)]
+  fam = ['functor', 'functor', 'dna', 'dna', 'hyper', 'wrapped', 'wrapped', 'flagcls', 'flagcls', 'flagcls',
+         'subroot', 'subroot', 'subroot'][r.below(13)]
   spec = {'fam': fam, 'how': HOWS[r.below(4)]}
+  if fam == 'flagcls':
+    spec['cls'] = r.below(4)
+    spec['sealed'] = (None, False, True)[r.below(3)]          # constructor argument
+    spec['partial'] = r.chance(0.3)
+    spec['after'] = (None, None, False, True)[r.below(4)]     # .seal(flag) after construction
+    spec['inner'] = r.chance(0.3)                             # seal an inner container (never unseal below a sealed node: F93)
+    spec['nested'] = r.chance(0.5)                            # a second instance inside field `w`
+    spec['tree'] = TREES[r.below(len(TREES))] if r.chance(0.5) else 'self'
+    spec['muts'] = [[('rebind_x', 'set_z', 'rebind_w', 'append_l', 'assign_x', 'rebind_nested')[r.below(6)], r.randint(10, 19)]
+                    for _ in range(r.randint(1, 4))]
+    return {'ops': [], 'lib': spec}
+  if fam == 'subroot':
+    spec['src'] = ('init_args', 'init_args', 'init_args_partial', 'init_args_functor', 'child_dict', 'child_list',
+                   'dna_children', 'candidates', 'init_args_flagcls')[r.below(9)]
+    spec['muts'] = [[('adopt', 'write', 'cache', 'append')[r.below(4)], r.randint(10, 19)] for _ in range(r.randint(1, 4))]
+    return {'ops': [], 'lib': spec}
   if fam == 'functor':
     spec['variant'] = 'fn' if r.chance(0.5) else 'cls'
     bound = {}
@@ -240,7 +288,7 @@ _EXEMPT = {'_spec'}        # DNA -> DNASpec: binding by reference, part of the c
 _SKIP = {'_sym_parent', '_tls', '_sym_origin'}
 
 
-def _pairwise(lb, o, c, deep, own_root):
+def _pairwise(lb, o, c, deep, own_root, check_orig=True):
   """equality, class, flags, no shared node, no shared mutable per-object state, leaves."""
   pg = lb['pg']
   Leaf = lb['Leaf']
@@ -288,7 +336,7 @@ def _pairwise(lb, o, c, deep, own_root):
           return ('shallow-copies-leaf', 'shallow clone does not share the non-symbolic leaf %r of node %r' % (k, p))
   if own_root and (c.sym_parent is not None or list(c.sym_path.keys)):
     return ('not-own-tree', 'the clone reports a parent / a path')
-  return _well_formed(pg, o, 'original') or _well_formed(pg, c, 'clone')
+  return (_well_formed(pg, o, 'original') if check_orig else None) or _well_formed(pg, c, 'clone')
 
 
 def _in_tree(lb, x, tree):
@@ -649,11 +697,169 @@ def _run_wrapped(lb, s):
   return None
 
 
+def _try(fn):
+  try:
+    fn()
+    return 'ok'
+  except Exception as e:   # pylint: disable=broad-except
+    return type(e).__name__
+
+
+def _flag_mut(pg, x, m):
+  kind, v = m
+  if kind == 'rebind_x':
+    x.rebind(x=v)
+  elif kind == 'set_z':
+    x.y.z = v
+  elif kind == 'rebind_w':
+    x.rebind(w=pg.Dict(q=v))
+  elif kind == 'append_l':
+    x.l.append(v)
+  elif kind == 'assign_x':
+    x.x = v
+  else:
+    x.rebind({'w.x': v})
+
+
+def _run_flagcls(lb, s):
+  """instances whose behavioural flags differ from the defaults of their class."""
+  pg = lb['pg']
+  cls = lb['flagcls'][s['cls']]
+  kw = {'x': 1, 'y': {'z': 2, 'u': pg.Dict(k=1)}, 'l': [pg.Dict(e=1), 3]}
+  if s['nested']:
+    kw['w'] = cls(x=5) if s['sealed'] is None else cls(x=5, sealed=s['sealed'])
+  if s['sealed'] is not None:
+    kw['sealed'] = s['sealed']
+  try:
+    if s['partial']:
+      kw.pop('x')
+      obj = cls.partial(**kw)
+    else:
+      obj = cls(**kw)
+  except Exception:   # pylint: disable=broad-except
+    return None
+  if s['after'] is not None:
+    obj.seal(s['after'])
+  if s['inner'] and not obj.is_sealed:
+    obj.y.seal(True)
+  tree, get = _in_tree(lb, obj, s['tree'])
+  deep = s['how'] in ('deep', 'deepcopy')
+  before = _obs_tree(lb, tree)
+  ctree = _clone(tree, s['how'])
+  if _obs_tree(lb, tree) != before:
+    return ('original-changed', 'cloning changed the original')
+  bad = _pairwise(lb, tree, ctree, deep, True)
+  if bad:
+    return bad
+  o, c = get(tree), get(ctree)
+  # the same call on either copy is accepted or refused alike, and leaves them equal
+  for i, m in enumerate(s['muts']):
+    ro = _try(lambda: _flag_mut(pg, o, m))
+    rc = _try(lambda: _flag_mut(pg, c, m))
+    if ro != rc:
+      return ('behaviour', 'call %d (%s): the original answers %s, the clone %s (flags: original %r, clone %r)' % (
+          i, m[0], ro, rc, _flags(o), _flags(c)))
+    bad = _pairwise(lb, tree, ctree, deep, True)
+    if bad:
+      return (bad[0], 'after the same call (%s) on both copies: %s' % (m[0], bad[1]))
+  return None
+
+
+def _run_subroot(lb, s):
+  """clone roots that are not whole values: the field container of an object, inner nodes, children lists."""
+  pg = lb['pg']
+  Model = lb['Model']
+  src = s['src']
+  owner = None
+  if src == 'init_args':
+    owner = Model('m', opts=dict(lr=0.1), layers=[pg.Dict(units=8), [1, 2]])
+    x = owner.sym_init_args
+  elif src == 'init_args_partial':
+    owner = Model.partial(name='p', opts=pg.Dict.partial())
+    x = owner.sym_init_args
+  elif src == 'init_args_functor':
+    owner = lb['add3'](1, y=pg.Dict(k=1))
+    x = owner.sym_init_args
+  elif src == 'init_args_flagcls':
+    owner = lb['flagcls'][0](x=1, y={'z': 2, 'u': pg.Dict(k=1)}, l=[pg.Dict(e=1)], sealed=False)
+    x = owner.sym_init_args
+  elif src == 'child_dict':
+    owner = pg.Dict(p=pg.List([pg.Dict(q=pg.Dict(r=1), s=[pg.Dict(t=2)])]), v=3)
+    x = owner['p'][0]
+  elif src == 'child_list':
+    owner = lb['Holder'](a=pg.List([pg.Dict(q=1), [pg.Dict(r=2)]]), b=2)
+    x = owner.a
+  elif src == 'dna_children':
+    owner = pg.DNA([(0, 1), 0.5, [0, 1]])
+    x = owner.children
+  else:
+    owner = pg.oneof([pg.Dict(u=pg.oneof([7, 8])), pg.floatv(0.0, 2.0), 5])
+    x = owner.candidates
+  deep = s['how'] in ('deep', 'deepcopy')
+  before = _obs_tree(lb, owner)
+  c = _clone(x, s['how'])
+  if _obs_tree(lb, owner) != before:
+    return ('original-changed', 'cloning a part of a value changed the value')
+  bad = _pairwise(lb, x, c, deep, True, check_orig=False) or _well_formed(pg, owner, 'original')
+  if bad:
+    return bad
+  if c.sym_root is not c:
+    return ('not-own-tree', 'the clone is not its own root')
+  for p, n in _walk(pg, c):
+    if n.sym_root is not c:
+      return ('not-own-tree', 'the node at %r of the clone does not see the clone as its root' % (p,))
+  kids = [(p, n) for p, n in sorted(_walk(pg, c), key=lambda z: repr(z[0])) if p]
+  snap_owner = _obs_tree(lb, owner)
+  for i, m in enumerate(s['muts']):
+    kind, v = m
+    if not kids:
+      break
+    p, n = kids[v % len(kids)]
+    if kind == 'adopt':
+      # a node of the clone that is put into another tree is copied there, never taken away
+      holder = n.sym_parent
+      other = pg.Dict(k=n)
+      if other.sym_getattr('k') is n:
+        return ('shared-node', 'the node at %r of the clone was adopted by another tree instead of being copied' % (p,))
+      if n.sym_parent is not holder:
+        return ('stale-parent', 'the node at %r of the clone lost its parent to another tree' % (p,))
+    elif kind == 'write':
+      tgt = n
+      r = _try(lambda: tgt.rebind({list(tgt.sym_keys())[0]: v}) if list(tgt.sym_keys()) else None)
+      del r
+    elif kind == 'cache' and src != 'dna_children':    # (a DNA clone drops non-cloneable metadata by contract)
+      # the clone sees what happens below it (content caches are invalidated through the parent chain)
+      try:
+        b4 = c.sym_nondefault() if hasattr(c, 'sym_nondefault') else None
+        leafs = [(pp, nn) for pp, nn in kids if isinstance(nn, pg.Dict) and not nn.is_sealed]
+        if b4 is not None and leafs:
+          pp, nn = leafs[v % len(leafs)]
+          nn['fresh%d' % i] = v
+          af = sorted(str(k) for k in c.sym_nondefault())
+          fresh = sorted(str(k) for k in c.clone(deep=True).sym_nondefault())
+          if af != fresh:
+            return ('stale-cache', 'the clone does not see a change made below it at %r: sym_nondefault() lists %s, '
+                    'a fresh copy of it %s' % (pp, [k for k in af if k not in fresh][:3], [k for k in fresh if k not in af][:3]))
+      except Exception:   # pylint: disable=broad-except
+        pass
+    elif kind == 'append' or kind == 'cache':
+      tgt = c
+      _try(lambda: tgt.append(v) if isinstance(tgt, pg.List) else tgt.rebind({list(tgt.sym_keys())[0]: v}))
+    if _obs_tree(lb, owner) != snap_owner:
+      return ('interference', 'call %d (%s) on the clone changed the value it was cloned from' % (i, kind))
+    bad = _well_formed(pg, c, 'clone') or _well_formed(pg, owner, 'original')
+    if bad:
+      return bad
+    kids = [(pp, nn) for pp, nn in sorted(_walk(pg, c), key=lambda z: repr(z[0])) if pp]
+  return None
+
+
 def run_case(case):
   """same result shape as symcommon.run_history (no model records: nothing is compared)."""
   lb = lib()
   s = case['lib']
-  fn = {'functor': _run_functor, 'dna': _run_dna, 'hyper': _run_hyper, 'wrapped': _run_wrapped}[s['fam']]
+  fn = {'functor': _run_functor, 'dna': _run_dna, 'hyper': _run_hyper, 'wrapped': _run_wrapped,
+        'flagcls': _run_flagcls, 'subroot': _run_subroot}[s['fam']]
   bad = fn(lb, s)
   fail = None
   if bad:
